@@ -12,6 +12,12 @@ COMMON_NOTE = ("Trusted base: rustc nightly's MIR (mir-opt-level=0) of the dev p
                "as values.")
 
 CHECKS = {
+    "C02": ("static analysis: who-may-construct/who-may-call inventories, guard dependence (control slices), abstract "
+            "interpretation of Option presence, flow-bound provenance",
+            "Decides on all paths that formations only grow through the guarded replacement function, that the guard "
+            "depends on the applicable limit / track count / current count, that the combined limit is absent only if "
+            "both limits are absent (4-case table), that every start-depot decision consults capacity, and that flow "
+            "bounds use these quantities. Comparator direction and count arithmetic are not decided.", "5 C02"),
     "C06": ("static analysis: guard recognition for usize arithmetic on cycle lengths (MIR dominators / control "
             "dependence), compiler-evaluated constant agreement, None-operand and strict-acceptance checks",
             "Decides three termination/no-panic clauses statically for all inputs: guarded arithmetic on "
@@ -22,6 +28,15 @@ CHECKS = {
             "Decides for every construction site of Schedule/Tour/Transition, on all paths, that caches are rebuilt "
             "together with the data they summarise, that no computed update is dropped, and that Distance deltas are "
             "guarded against Infinity. The arithmetic of the deltas is not decided.", "5 C09"),
+    "C12": ("static analysis: hand-back flow (slices), refusal decision slices, tie-consistency recogniser on "
+            "normalised comparison operators",
+            "Decides that insert_path returns exactly the spliced-out block, that removal refusals are decided on the "
+            "documented tests, and that the time prefilters in front of can_reach are strict (tie case). "
+            "Longest-prefix/suffix semantics beyond the tie case are not decided.", "5 C12"),
+    "C14": ("static analysis: tie-consistency recogniser for BTreeMap range bounds; flow-network wiring provenance",
+            "Decides the wiring conditions of the covering circulation (arcs along predecessors incl. ties, bounds, costs, "
+            "label/closure mapping, decoding driven by positive flow). Optimality itself is not decidable statically "
+            "and is not claimed.", "5 C14"),
     "C16": ("static analysis: stage-flow (backward dependence slices over MIR of the two pipeline functions)",
             "Decides on all paths that each pipeline stage's result feeds the next stage's named operand up to the "
             "returned JSON, in server::solve_instance and its sibling internal::run.", "5 C16"),
